@@ -17,7 +17,7 @@ from vmc.runner import Check
 
 ALGOS = ["parafac", "non_negative_parafac", "non_negative_parafac_hals", "constrained_parafac", "tucker", "non_negative_tucker_hals", "parafac2"]
 NN = {"non_negative_parafac", "non_negative_parafac_hals", "non_negative_tucker_hals", "constrained_parafac"}
-WEIGHTS = ["none", "ones", "positive", "negative", "mixed"]
+WEIGHTS = ["none", "ones", "positive", "negative", "mixed", "partly-one", "partly-one-first"]
 
 
 def subsets(n):
